@@ -1,6 +1,7 @@
 #!/usr/bin/env python3
-"""Runs every seeded change against the check(s) of its property: applies seeded/<id>/patch.diff to /repo, runs the quick check,
-reverts.  Records the outcome in seeded/<id>/meta.json and prints a table.  /repo must be clean."""
+"""Runs every seeded change against the check(s) of its property: tools/try_mutant.sh applies seeded/<id>/patch.diff to a scratch
+worktree of /repo's HEAD and points the quick check at it (VERIF_REPO / VERIF_OUT), so neither /repo nor the evidence of the real
+tree is touched.  Records the outcome in seeded/<id>/meta.json and prints a table."""
 import json, os, subprocess, sys
 ROOT = os.path.dirname(os.path.dirname(os.path.abspath(__file__)))
 EXTRA = {'C14A': ['C15'], 'C15A': ['C14'], 'C06A': ['C17'], 'C17B': ['C06'], 'C09B': ['C16'], 'C16A': ['C09'], 'C04B': ['C01'],
@@ -13,8 +14,6 @@ def sh(cmd, **kw):
 
 def main():
     ids = sys.argv[1:] or sorted(os.listdir(os.path.join(ROOT, 'seeded')))
-    if sh('git -C /repo status --porcelain').stdout.strip():
-        print('/repo is dirty'); return 2
     rows = []
     for sid in ids:
         d = os.path.join(ROOT, 'seeded', sid)
@@ -33,7 +32,6 @@ def main():
                 continue
             sigs = [l.split('signature:')[1].strip() for l in out.splitlines() if 'signature:' in l]
             res[prop] = {'detected': 'VIOLATION' in out, 'signatures': sigs[:4]}
-        sh('git -C /repo reset -q --hard HEAD; rm -f /repo/*.rej /repo/*.orig')
         meta['detection'] = {'head': sh('git -C /repo rev-parse --short HEAD').stdout.strip(), 'tier': 'quick', 'results': res}
         json.dump(meta, open(meta_p, 'w'), indent=1)
         rows.append((sid, res))
